@@ -217,9 +217,143 @@ Proof.
       exists (i :: p). split; [exact Hp|]. cbn [Nat.add] in Heq. symmetry. exact Heq.
 Qed.
 
+(** ** The same maximum by dynamic programming over end positions *)
+
+Section Snoc.
+  Variable n : nat.
+  Variable R : nat -> nat -> Prop.
+  Hypothesis Hf : forall i j, R i j -> i < j /\ j < n.
+
+  Lemma rpath_snoc p : forall a i,
+    rpath n R (p ++ [a]) -> R a i -> rpath n R (p ++ [a; i]).
+  Proof.
+    induction p as [|x p IH]; intros a i Hp Hr; cbn [app] in *.
+    - constructor; [exact Hr|]. constructor. apply (Hf _ _ Hr).
+    - destruct p as [|y p']; cbn [app] in *.
+      + inversion Hp as [| |? ? ? Hxa Ha]; subst. constructor; [exact Hxa|].
+        apply (IH a i); auto.
+      + inversion Hp as [| |? ? ? Hxy Hy]; subst. constructor; [exact Hxy|].
+        apply (IH a i); auto.
+  Qed.
+
+  Lemma rpath_snoc_inv p : forall a i,
+    rpath n R (p ++ [a; i]) -> R a i /\ rpath n R (p ++ [a]).
+  Proof.
+    induction p as [|x p IH]; intros a i Hp; cbn [app] in *.
+    - inversion Hp as [| |? ? ? Hai Hi]; subst. split; auto.
+      constructor. destruct (Hf _ _ Hai). lia.
+    - destruct p as [|y p']; cbn [app] in *.
+      + inversion Hp as [| |? ? ? Hxa Ha]; subst.
+        destruct (IH a i Ha) as [Hr Hp']. split; auto. now constructor.
+      + inversion Hp as [| |? ? ? Hxy Hy]; subst.
+        destruct (IH a i Hy) as [Hr Hp']. split; auto. now constructor.
+  Qed.
+
+  Lemma rpath_last_lt p i : rpath n R (p ++ [i]) -> i < n.
+  Proof.
+    induction p as [|x p IH]; cbn [app]; intros Hp.
+    - inversion Hp; subst; auto.
+    - destruct p as [|y p']; cbn [app] in *.
+      + inversion Hp as [| |? ? ? Hxi Hi]; subst. apply (Hf _ _ Hxi).
+      + inversion Hp; subst. auto.
+  Qed.
+End Snoc.
+
+Lemma exists_last_or_nil {A} (l : list A) : l = [] \/ exists l' a, l = l' ++ [a].
+Proof.
+  destruct l as [|x t]; [now left|]. right.
+  destruct (@exists_last A (x :: t)) as (l' & a & H); [discriminate|]. eauto.
+Qed.
+
+Lemma cnt_app w p q : cnt w (p ++ q) = cnt w p + cnt w q.
+Proof.
+  induction p as [|x p IH]; [reflexivity|]. cbn [app]. rewrite !cnt_cons, IH. lia.
+Qed.
+
+(** [b] is the largest count over chains ending at position [i]. *)
+Definition BestEnd (prog : list instr) (k i b : nat) : Prop :=
+  (forall p, chain prog (p ++ [i]) -> count prog k (p ++ [i]) <= b)
+  /\ (exists p, chain prog (p ++ [i]) /\ count prog k (p ++ [i]) = b).
+
+Lemma dp_step prog k i done :
+  i < length prog -> length done = i ->
+  (forall a, a < i -> BestEnd prog k a (nth a done 0)) ->
+  BestEnd prog k i
+    (weight prog k i
+     + max_list (map (fun a => nth a done 0) (filter (fun a => linkb prog a i) (seq 0 i)))).
+Proof.
+  intros Hi Hlen Hdone. pose proof (link_fwd prog) as Hf.
+  set (preds := filter (fun a => linkb prog a i) (seq 0 i)).
+  assert (Hpreds : forall a, In a preds <-> link prog a i).
+  { intros a. unfold preds. rewrite filter_In, in_seq, linkb_spec. split; [tauto|].
+    intros H. split; auto. destruct (Hf _ _ H). lia. }
+  split.
+  - intros p Hp. unfold count. rewrite cnt_app, cnt_cons, cnt_nil.
+    destruct (exists_last_or_nil p) as [-> | (p' & a & ->)].
+    + rewrite cnt_nil. lia.
+    + rewrite <- app_assoc in Hp. cbn [app] in Hp.
+      apply (rpath_snoc_inv _ _ Hf) in Hp as [Hr Hp'].
+      assert (Ha : a < i) by apply (Hf _ _ Hr).
+      destruct (Hdone a Ha) as [Hup _]. specialize (Hup p' Hp'). unfold count in Hup.
+      assert (Hin : In (nth a done 0) (map (fun a0 => nth a0 done 0) preds)).
+      { apply in_map_iff. exists a. split; auto. now apply Hpreds. }
+      apply max_list_ge in Hin. lia.
+  - set (L := map (fun a => nth a done 0) preds).
+    destruct L as [|x0 t0] eqn:HL.
+    + exists []. split; [now constructor|]. unfold count. cbn [app max_list fold_right].
+      rewrite cnt_cons, cnt_nil. lia.
+    + assert (Hin : In (max_list (x0 :: t0)) L) by (rewrite HL; apply max_list_in; discriminate).
+      unfold L in Hin. apply in_map_iff in Hin as [a [Heq Ha]].
+      apply Hpreds in Ha.
+      assert (Hai : a < i) by apply (Hf _ _ Ha).
+      destruct (Hdone a Hai) as [_ (p' & Hp' & Hc)].
+      exists (p' ++ [a]). split.
+      * rewrite <- app_assoc. cbn [app]. apply (rpath_snoc _ _ Hf); auto.
+      * unfold count in *. rewrite cnt_app, cnt_cons, cnt_nil, Hc, Heq. lia.
+Qed.
+
+Lemma dp_from_inv prog k todo : forall i done,
+  i + todo = length prog -> length done = i ->
+  (forall a, a < i -> BestEnd prog k a (nth a done 0)) ->
+  let r := dp_from prog k todo i done in
+  length r = length prog /\ forall a, a < length prog -> BestEnd prog k a (nth a r 0).
+Proof.
+  induction todo as [|t IH]; intros i done Hn Hlen Hdone; cbn [dp_from].
+  - split; [lia|]. intros a Ha. apply Hdone. lia.
+  - apply IH.
+    + lia.
+    + rewrite app_length. cbn [length]. lia.
+    + intros a Ha. destruct (Nat.eq_dec a i) as [-> | Hne].
+      * rewrite app_nth2, Hlen, Nat.sub_diag by lia. cbn [nth].
+        apply dp_step; auto. lia.
+      * rewrite app_nth1 by lia. apply Hdone. lia.
+Qed.
+
+Theorem chain_max_dp_spec prog k : IsMaxChain prog k (chain_max_dp prog k).
+Proof.
+  unfold chain_max_dp. pose proof (link_fwd prog) as Hf.
+  destruct (dp_from_inv prog k (length prog) 0 [] eq_refl eq_refl) as [Hlen Hbest];
+    [intros a Ha; lia|].
+  set (bests := dp_from prog k (length prog) 0 []) in *. split.
+  - intros p Hp. destruct (exists_last_or_nil p) as [-> | (p' & i & ->)].
+    + unfold count. rewrite cnt_nil. lia.
+    + pose proof (rpath_last_lt _ _ Hf _ _ Hp) as Hi.
+      destruct (Hbest i Hi) as [Hup _]. specialize (Hup p' Hp).
+      etransitivity; [exact Hup|]. apply max_list_ge. apply nth_In. lia.
+  - destruct bests as [|x t] eqn:Hb.
+    + exists []. split; [constructor | reflexivity].
+    + assert (Hin : In (max_list (x :: t)) (x :: t)) by (apply max_list_in; discriminate).
+      apply (In_nth _ _ 0) in Hin as [i [Hi Hnth]].
+      rewrite Hlen in Hi. destruct (Hbest i Hi) as [_ (p & Hp & Hc)].
+      exists (p ++ [i]). split; auto. rewrite Hc. exact Hnth.
+Qed.
+
+Theorem chain_max_dp_eq prog k : chain_max_dp prog k = chain_max prog k.
+Proof. eapply IsMaxChain_unique; [apply chain_max_dp_spec | apply chain_max_spec]. Qed.
+
 Theorem chk_depth_sound prog k d : chk_depth prog k d = true -> IsMaxChain prog k d.
 Proof.
-  unfold chk_depth. rewrite andb_true_iff, Nat.eqb_eq. intros [_ ->]. apply chain_max_spec.
+  unfold chk_depth. rewrite andb_true_iff, Nat.eqb_eq. intros [_ ->]. apply chain_max_dp_spec.
 Qed.
 
 (** ** Edge construction: the edges are exactly the links *)
